@@ -170,7 +170,7 @@ def neighbour_state(cfg, save_markers):
     checkpoint is what its resume depends on.  Returns {'files': {path: bytes}, 'complete': {path: sha1}} or None."""
     if not cfg.get('neighbour') or len(save_markers) < 2:
         return None
-    nb_cfg = dict(cfg, preexisting_output=False, neighbour=False)
+    nb_cfg = dict(cfg, preexisting_output=False, neighbour=False, skip_if_output_exists=False)
     params = W.build_params(nb_cfg, out_name=W.neighbour_stem(cfg.get('out_stem', 'results')))
     base = save_markers[min(1, len(save_markers) - 2)]  # inside the save after the first or second completed one
     best = None
@@ -827,7 +827,7 @@ def minimise(found, budget_s=240.0):
                        ('preexisting_output', False), ('conserve', None), ('save_every', 0.0), ('mixer', None),
                        ('measure_at_checkpoints', False), ('max_hours', None), ('N_sweeps_check', 1),
                        ('chi_list', None), ('group_sites', 1), ('measure_initial', True), ('save_stats', True), ('save_psi', True), ('canonicalize', False), ('wrapped_measurement', False), ('truncerr_measurement', False), ('start_time', 0.0), ('preserve_norm', None), ('combine', False), ('diag_method', 'default'), ('max_S_err', None), ('max_E_err', None), ('max_sweeps', 3), ('n_outer', 3), ('N_steps', 1), ('chi', 8), ('model', 'TFIChain'),
-                       ('order', 2), ('neighbour', False), ('out_stem', 'results')]
+                       ('order', 2), ('neighbour', False), ('out_stem', 'results'), ('skip_if_output_exists', False)]
     for key, val in simplifications:
         if key in best['cfg'] and best['cfg'][key] != val and best['cfg'][key] is not None or (
                 key in best['cfg'] and val is None and best['cfg'][key] is not None):
